@@ -185,6 +185,29 @@ func init() {
 		if math.Float32bits(e1) != math.Float32bits(e2) {
 			same = 0
 		}
+		// the same fields on an object that started life in the constructor, was asked once with OTHER required sets of the same
+		// number, and then had their contents replaced in place: the answer is the one for the fields as they are now
+		if len(r.RequireSets) > 0 {
+			so, se := drain(capOut), drain(capErr) // what the calls above printed is the case's output; the calls below print again
+			defer func() {
+				drain(capOut)
+				drain(capErr)
+				_, _ = capOut.Write(so)
+				_, _ = capErr.Write(se)
+			}()
+			obj := spg.NewCharRecipe(r.Length)
+			obj.Allow, obj.Require, obj.Exclude, obj.AllowChars, obj.ExcludeChars = r.Allow, r.Require, r.Exclude, r.AllowChars, r.ExcludeChars
+			obj.RequireSets = make([]string, len(r.RequireSets))
+			for i := range obj.RequireSets {
+				obj.RequireSets[i] = "~"
+			}
+			_ = obj.Entropy()
+			_ = obj.SuccessProbability()
+			copy(obj.RequireSets, r.RequireSets)
+			if math.Float32bits(obj.Entropy()) != math.Float32bits(e1) || math.Float32bits(obj.SuccessProbability()) != math.Float32bits(sp) || obj.Alphabet() != a {
+				same = 0
+			}
+		}
 		return fmt.Sprintf("alphabet=%s count=%s ent=%s sp=%s stable=%d", hxs(a), c.Text(16), f32(e1), f32(sp), same)
 	}
 }
